@@ -103,6 +103,8 @@ pub enum FailKind {
     DivZeroNestedArgs,
     /// error while two built-in argument lists are open: Q% = LEN(STR$(1 / ZZ%))  -> 11
     DivZeroBuiltInArgs,
+    /// error in the argument of a SUB call statement: SI (1 / ZZ%)  -> 11
+    DivZeroSubCallArg,
 }
 
 impl FailKind {
@@ -112,14 +114,16 @@ impl FailKind {
             | FailKind::DivZeroMid
             | FailKind::PrintThenDivZero
             | FailKind::DivZeroNestedArgs
-            | FailKind::DivZeroBuiltInArgs => 11,
+            | FailKind::DivZeroBuiltInArgs
+            | FailKind::DivZeroSubCallArg => 11,
             FailKind::Subscript => 9,
             FailKind::Overflow => 6,
             FailKind::IllegalCall => 5,
             FailKind::BadHandle => 52,
         }
     }
-    pub const ALL: [FailKind; 9] = [
+    pub const ALL: [FailKind; 10] = [
+        FailKind::DivZeroSubCallArg,
         FailKind::DivZeroNestedArgs,
         FailKind::DivZeroBuiltInArgs,
         FailKind::DivZero,
